@@ -5,9 +5,9 @@ package main
 // OTLP   c06otlp|c06otlprt <nres> ( KVS <nscopes> ( <nspans> SPAN* )* )*
 //        KVS  = <n> ( <hexkey> VAL )*n
 //        VAL  = s <hex> | b 0|1 | i <int> | d <ieee bits> | y <hex> | u | a <n> VAL*n | m <n> ( <hexkey> VAL )*n
-//        SPAN = <tid> <sid> <pid> <name> <kind> <start> <end> ( N | T <code> <hexmsg> ) KVS
+//        SPAN = <tid> <sid> <pid> <name> <kind> <start> <end> ( N | T <code> <hexmsg> ) KVS <nevents> ( <time> <hexname> )*
 // Zipkin c06zip|c06ziprt a|n <nspans> ( <serial> <rawlen> <nfields> FIELD* )*
-//        FIELD = T J | I J | P J | N J | K J | t Z | u Z | L E | R E | G ( ~ | <n> ( <hexkey> J )*n ) | O
+//        FIELD = T J | I J | P J | N J | K J | t Z | u Z | L E | R E | G ( ~ | <n> ( <hexkey> J )*n ) | A ( ~ | <n> ( <micros> <hexvalue> )*n ) | O
 //        J = ~ (not a string) | <hex> ;  Z = n<int> | s<hex> | x ;  E = ~ | e (a | x | s<hex>) (~|<hex>) (~|<hex>) <port>
 
 import (
@@ -84,7 +84,12 @@ func c06SpanTokens(s *trace.Span, out []string) []string {
 	} else {
 		out = append(out, "T", strconv.Itoa(int(s.Status.Code)), c06hex(s.Status.Message))
 	}
-	return c06KVsTokens(s.Attributes, out)
+	out = c06KVsTokens(s.Attributes, out)
+	out = append(out, strconv.Itoa(len(s.Events)))
+	for _, e := range s.Events {
+		out = append(out, strconv.FormatUint(e.GetTimeUnixNano(), 10), c06hex(e.GetName()))
+	}
+	return out
 }
 
 func c06TracesTokens(td *trace.TracesData) []string {
@@ -593,7 +598,18 @@ func c06GenZSpan(rng *h.Rng, serial int, wild bool, maxHex int) (*c06ZSpan, map[
 	}
 	for _, k := range []string{"annotations", "debug", "shared", "zz"} {
 		if rng.Chance(20) {
-			add(k, h.Pick(rng, []string{"[{\"timestamp\":1700000000000001,\"value\":\"ws\"}]", "true", "null", "{\"traceId\":\"ff\",\"name\":[\"n\"]}", "\"s\""}), "O")
+			raw := h.Pick(rng, []string{"[{\"timestamp\":1700000000000001,\"value\":\"ws\"}]", "true", "null", "{\"traceId\":\"ff\",\"name\":[\"n\"]}", "\"s\"",
+				"[{\"timestamp\":0,\"value\":\"zero\"},{\"value\":\"nots\"},{\"timestamp\":18446744073709551,\"value\":\"big\"},7,{\"timestamp\":\"5\",\"value\":5}]"})
+			switch {
+			case k != "annotations":
+				add(k, raw, "O")
+			case strings.HasPrefix(raw, "[{\"timestamp\":17"):
+				add(k, raw, "A", "1", "1700000000000001", c06hex("ws"))
+			case strings.HasPrefix(raw, "[{\"timestamp\":0"):
+				add(k, raw, "A", "5", "0", c06hex("zero"), "0", c06hex("nots"), "18446744073709551", c06hex("big"), "0", "-", "0", "-")
+			default:
+				add(k, raw, "A", "~")
+			}
 		}
 	}
 	// any member order
